@@ -283,6 +283,9 @@ class Engine:
         if cls == model.ALLOC:
             return ([mk(v=vec(alloc=1))], "ALLOC", {"via": path})
         if cls == model.DEALLOC:
+            if term is not None and term.get("args") and self._foreign_storage(term["args"][0]):
+                # releasing storage that never was a block of ours (the shell of a `Box<T>` whose contents were moved out)
+                return ([RET0], "STD", path)
             return ([mk(v=vec(free_raw=1))], "FREE", {"via": path})
         if cls == model.BOXNEW:
             x = targs[0]
@@ -470,7 +473,23 @@ class Engine:
         return []
 
     # ------------------------------------------------------------------ path walking
+    def _foreign_storage(self, op):
+        from . import storage
+
+        body = getattr(self, "_cur_body", None)
+        return body is not None and storage.foreign_storage(self.f, body, op)
+
     def walk(self, body, record):
+        f = self.f
+        blocks = body["blocks"]
+        _prev_body = getattr(self, "_cur_body", None)
+        self._cur_body = body
+        try:
+            return self._walk(body, record)
+        finally:
+            self._cur_body = _prev_body
+
+    def _walk(self, body, record):
         f = self.f
         blocks = body["blocks"]
         results = []
